@@ -395,6 +395,7 @@ def modelF (t : List Nat) : Repl → Caps → List Nat
   | .str rv => fun mt => Model.expand t mt rv
   | .report => fun mt => Model.reportArgs (Model.replacerArgs t mt)
   | .const ret => fun _ => ret
+  | .types => fun mt => typeReport [115, 116, 114, 105, 110, 103] mt true
 
 /-- String.prototype.replace returns the §15.5.4.11 concatenation over the matches the engine found,
     for every engine, every subject and every replaceValue -/
